@@ -165,6 +165,22 @@ C18_BadOnlyByConflation == {i \in C18_Bad : \/ Run.composites[i].id \in BadlyKep
                                              \/ /\ C18_Check(Run.composites[i], FALSE)
                                                 /\ \E f \in RangeOf(CompFields(Run.composites[i])) : Reach(Reg, f.ty) \cap BadlyKept # {}}
 
+(* ---- C07: substituted paths are neither defined nor referenced; occurrences are parameter-correct ---- *)
+AllTys == FlattenSeq([k \in DOMAIN AllItems(Root) |-> ItemFieldTys(AllItems(Root)[k].it)])
+C07_Failed ==
+  IF ~GenOk \/ Len(S.subs) = 0 THEN {}
+  ELSE (IF \A r \in DOMAIN S.subs : FindItem(Root, <<S.root>> \o S.subs[r].src.segs).kind = "none" THEN {} ELSE {"NoItem"})
+       \cup (IF \A r \in DOMAIN S.subs : /\ \A i \in DOMAIN AllTys : ~RefersTo(AllTys[i], <<S.root>> \o S.subs[r].src.segs)
+                                          /\ \A id \in Ids(Reg) : Run.paths[id + 1].res = "ok" => ~RefersTo(Run.paths[id + 1].ty, <<S.root>> \o S.subs[r].src.segs)
+             THEN {} ELSE {"NoReference"})
+       \cup (IF O.input.cf /\ UnfaithfulIds # {} THEN {"ParameterCorrect"} ELSE {})
+
+(* ---- C08: every emitted item carries exactly the right derives and attributes (must/may) ---- *)
+C08_BadItems == IF ~GenOk THEN {}
+                ELSE {k \in DOMAIN AllItems(Root) :
+                        LET x == AllItems(Root)[k] IN
+                        ~C08_ItemOK(Reg, S, Root, Tail(x.path), RangeOf(x.it.derives), RangeOf(x.it.attrs), x.it)}
+
 Failed ==
   \* C01: well-formed, coincidence-free registries (cf is evaluated on the source program by the case generator)
   (IF O.input.cf /\ UnfaithfulIds # {} THEN {"C01.Faithful"} ELSE {})
@@ -175,6 +191,8 @@ Failed ==
   \* C03: same-path families, not restricted to coincidence-free ones
   \cup (IF HasFamily /\ UnfaithfulIds # {} THEN {"C03.Faithful"} ELSE {})
   \cup (IF HasFamily /\ Run.gen.res \notin {"ok", "DuplicateTypePath"} THEN {"C03.OkOrDuplicate"} ELSE {})
+  \cup {"C07." \o x : x \in C07_Failed}
+  \cup (IF C08_BadItems # {} THEN {"C08.DerivesAndAttributes"} ELSE {})
   \cup (IF C05_BadDefs # {} THEN {"C05.ItemIsSourceDefinition"} ELSE {})
   \cup (IF C05_BadIds # {} THEN {"C05.OneItemForAllInstantiations"} ELSE {})
   \cup {"C17." \o x : x \in C17_Failed}
@@ -194,7 +212,7 @@ Known ==
 Verdict == Terminal =>
   PrintT("V " \o ToJson([case |-> O.case, failed |-> Failed, drift |-> Drift, rejected |-> rejected, at |-> l,
                          gen |-> Run.gen.res, model |-> ModelFinal.res, unfaithful |-> UnfaithfulIds,
-                         family |-> HasFamily, cf |-> O.input.cf, known |-> Known, c05 |-> C05_Domain, ncomp |-> Len(Run.composites),
+                         family |-> HasFamily, cf |-> O.input.cf, known |-> Known, c05 |-> C05_Domain, ncomp |-> Len(Run.composites), nsubs |-> Len(S.subs), ncalls |-> Len(S.derive_calls), cas |-> S.has_compact_as,
                          c05bad |-> C05_BadDefs, c18bad |-> C18_Bad,
                          outs |-> {Evs[i].out : i \in {j \in DOMAIN Evs : Evs[j].ev = "visit"}}]))
 =================================================================================
